@@ -899,10 +899,13 @@ def different_shapes_on_exclusive_types(rng, doc, s):
     alias = None if f1.name == f2.name and rng.random() < 0.7 else "shape"
     a = [opgen.OField(f1.name, t1.name, alias)]
     b = [opgen.OField(f2.name, t2.name, alias)]
-    if rng.random() < 0.5:
-        a = [opgen.OInline(None, a)]
-    if rng.random() < 0.3:
-        b = [opgen.OInline(None, b)]
+    if f1.name == f2.name and alias is None and rng.random() < 0.6:
+        pass        # two selection sets spelled identically, under parents that give them different types
+    else:
+        if rng.random() < 0.5:
+            a = [opgen.OInline(None, a)]
+        if rng.random() < 0.3:
+            b = [opgen.OInline(None, b)]
     sels.append(opgen.OInline(t1.name, a))
     sels.append(opgen.OInline(t2.name, b))
     return True
@@ -930,6 +933,39 @@ def typename_against_another_shape_on_exclusive_types(rng, doc, s):
     sels, t1, t2, f2 = rng.choice(cands)
     pair = [opgen.OInline(t1.name, [opgen.OField("__typename", t1.name, "shape")]),
             opgen.OInline(t2.name, [opgen.OField(f2.name, t2.name, "shape")])]
+    if rng.random() < 0.5:
+        pair.reverse()
+    sels.extend(pair)
+    return True
+
+
+@operator("OverlappingFieldsCanBeMergedChecker")
+def identically_spelled_sub_selections_with_different_shapes(rng, doc, s):
+    """`... on A { box { val } } ... on B { box { val } }` where A.box and B.box have different types and `val` is
+    an Int below one and a String below the other: the two sub-selections are the same text, not the same thing."""
+    cands = []
+    for sels, scope, owner in walk_selection_lists(doc, s):
+        if scope in s.types and s.types[scope].kind in ("interface", "union"):
+            poss = [s.types[n] for n in s.possible_types(scope)]
+            for i, t1 in enumerate(poss):
+                for t2 in poss[i + 1:]:
+                    for f1 in t1.fields:
+                        f2 = t2.field(f1.name)
+                        if f2 is None or f1.args or f2.args or f1.type == f2.type:
+                            continue
+                        o1, o2 = s.types.get(S.unwrap(f1.type)), s.types.get(S.unwrap(f2.type))
+                        if o1 is None or o2 is None or o1.kind != "object" or o2.kind != "object":
+                            continue
+                        for g1 in o1.fields:
+                            g2 = o2.field(g1.name)
+                            if g2 is not None and not g1.args and not g2.args and _is_leaf(s, g1.type) and \
+                                    _is_leaf(s, g2.type) and S.unwrap(g1.type) != S.unwrap(g2.type):
+                                cands.append((sels, t1, t2, f1, f2, o1, o2, g1))
+    if not cands:
+        return None
+    sels, t1, t2, f1, f2, o1, o2, g = rng.choice(cands)
+    pair = [opgen.OInline(t1.name, [opgen.OField(f1.name, t1.name, None, None, None, [opgen.OField(g.name, o1.name)])]),
+            opgen.OInline(t2.name, [opgen.OField(f2.name, t2.name, None, None, None, [opgen.OField(g.name, o2.name)])])]
     if rng.random() < 0.5:
         pair.reverse()
     sels.extend(pair)
